@@ -809,6 +809,29 @@ func pickParams(r *corr.Run) (df, thr int) {
 func runC07(r *corr.Run, m *modelSession, only bool) {
 	// (i) exhaustive block over a tiny universe
 	exhaustiveC07(r, m)
+	// (iii) larger random sets, oracle only
+	m.pause()
+	for k := 0; r.TimeLeft() && k < r.Pick(12, 120); k++ {
+		df, thr := pickParams(r)
+		if r.Chance(50) {
+			df, thr = []int{8, 16, 32}[r.Intn(3)], []int{8, 64, 256}[r.Intn(3)]
+		}
+		n := 200 + r.Intn(r.Pick(3000, 30000))
+		kind := []string{"natural", "natural", "mixed", "deep"}[r.Intn(4)]
+		w := genWorld(r, kind, n, df)
+		A := randContents(r, w, 70+r.Intn(30))
+		B := related(r, w, A)
+		for i := r.Intn(30); i > 0; i-- {
+			B = related(r, w, B)
+		}
+		if !widthSafe(w.hashesOf(A), df, thr) || !widthSafe(w.hashesOf(B), df, thr) {
+			r.Count("gen.width-excluded")
+			continue
+		}
+		r.Count("c07.large")
+		caseC07(r, m, w, df, thr, freshOps(w, A, nil), freshOps(w, B, nil), []string{"diff", "cdiff", "wire-cdiff", "kvwire-diff"})
+	}
+	m.resume()
 	// (ii) guard-directed random cases
 	for k := 0; r.TimeLeft() && k < r.Pick(6000, 120000); k++ {
 		df, thr := pickParams(r)
@@ -853,29 +876,6 @@ func runC07(r *corr.Run, m *modelSession, only bool) {
 		}
 		caseC07(r, m, w, df, thr, opsA, opsB, variants)
 	}
-	// (iii) larger random sets, oracle only
-	m.pause()
-	for k := 0; r.TimeLeft() && k < r.Pick(12, 120); k++ {
-		df, thr := pickParams(r)
-		if r.Chance(50) {
-			df, thr = []int{8, 16, 32}[r.Intn(3)], []int{8, 64, 256}[r.Intn(3)]
-		}
-		n := 200 + r.Intn(r.Pick(3000, 30000))
-		kind := []string{"natural", "natural", "mixed", "deep"}[r.Intn(4)]
-		w := genWorld(r, kind, n, df)
-		A := randContents(r, w, 70+r.Intn(30))
-		B := related(r, w, A)
-		for i := r.Intn(30); i > 0; i-- {
-			B = related(r, w, B)
-		}
-		if !widthSafe(w.hashesOf(A), df, thr) || !widthSafe(w.hashesOf(B), df, thr) {
-			r.Count("gen.width-excluded")
-			continue
-		}
-		r.Count("c07.large")
-		caseC07(r, m, w, df, thr, freshOps(w, A, nil), freshOps(w, B, nil), []string{"diff", "cdiff", "wire-cdiff"})
-	}
-	m.resume()
 }
 
 func filterIn(order []int, c contents) []int {
@@ -968,20 +968,9 @@ func exhaustiveC07(r *corr.Run, m *modelSession) {
 }
 
 func runC08(r *corr.Run, m *modelSession, only bool) {
-	for k := 0; r.TimeLeft() && k < r.Pick(5000, 100000); k++ {
-		df, thr := pickParams(r)
-		kind := worldKinds[r.Intn(len(worldKinds))]
-		w := genWorld(r, kind, 2+r.Intn(12), df)
-		if len(w.ids) == 0 {
-			continue
-		}
-		r.Count("c08.world." + kind)
-		ops := genHistory(r, w, df, thr, r.Intn(16), r.Chance(12))
-		caseC08(r, m, w, df, thr, ops, 1, 400)
-	}
 	// larger histories, oracle only
 	m.pause()
-	for k := 0; r.TimeLeft() && k < r.Pick(10, 150); k++ {
+	for k := 0; r.TimeLeft() && k < r.Pick(6, 150); k++ {
 		df, thr := pickParams(r)
 		if r.Chance(40) {
 			df, thr = []int{8, 16, 32}[r.Intn(3)], []int{8, 64, 256}[r.Intn(3)]
@@ -993,4 +982,15 @@ func runC08(r *corr.Run, m *modelSession, only bool) {
 		caseC08(r, m, w, df, thr, ops, 97, 600)
 	}
 	m.resume()
+	for k := 0; r.TimeLeft() && k < r.Pick(5000, 100000); k++ {
+		df, thr := pickParams(r)
+		kind := worldKinds[r.Intn(len(worldKinds))]
+		w := genWorld(r, kind, 2+r.Intn(12), df)
+		if len(w.ids) == 0 {
+			continue
+		}
+		r.Count("c08.world." + kind)
+		ops := genHistory(r, w, df, thr, r.Intn(16), r.Chance(12))
+		caseC08(r, m, w, df, thr, ops, 1, 400)
+	}
 }
